@@ -251,7 +251,8 @@ def run(chk):
     chk.assumptions = ['syn is not modelled: the model receives the AST produced by harness/libdrive/src/ast.rs (syn) from the same source text',
                        'generated text is read back by lib/extract.py (validated by tools/extract_selftest.py); definitions are identified by their signature '
                        '(kind, member keys, variant wire names), not by their name (naming is C02/C09)',
-                       'a panic (Kotlin/Swift write_const todo!()) is not a silent omission; it is C07\'s finding and only counted here']
+                       'an annotated const makes Kotlin / Swift generation fail (write_const returns Err: exit 1, "constants are not supported for ..: cannot generate `NAME`" - the /repo fix of the '
+                       'todo!() panics C07-kotlin.rs:183 / C07-swift.rs:268): reported as an error, not silently omitted; model and implementation must both answer err; a panic of a back end is C07\'s subject and only counted here']
     chk.prepare(need_cli=True)
     if not chk.harness_ok:
         return
@@ -403,6 +404,8 @@ def run(chk):
             mk = m[0]
             if ic[0] == 'panic':
                 chk.count('back_panic_reported_not_silent (C07)')
+            if ic[0] == 'err':
+                chk.count('back_generation_error_reported_not_silent')      # e.g. a const for Kotlin / Swift: Err(Unsupported) naming the constant
             if mk != ic[0]:
                 corr.append(dict(payload, impl=ic[:1], model=mk))
             continue
